@@ -22,6 +22,7 @@ func registerJSON() {
 	intrinsics["encoding/json.NewEncoder"] = iJSONNewEncoder
 	intrinsics["(*encoding/json.Encoder).Encode"] = iJSONEncode
 	intrinsics["(*encoding/json.Decoder).Token"] = iJSONToken
+	intrinsics["(*encoding/json.Decoder).More"] = iJSONMore
 	intrinsics["unicode/utf8.ValidString"] = iUTF8ValidString
 	intrinsics["encoding/json.NewDecoder"] = iJSONNewDecoder
 	intrinsics["(*encoding/json.Decoder).Decode"] = iJSONDecode
@@ -170,6 +171,9 @@ func iJSONEncode(in *Interp, fn *ssa.Function, a []Value) Value {
 		}
 	}
 	res := iJSONMarshal(in, fn, []Value{a[1]}).(Tuple)
+	if sl, ok := res[0].(Slice); ok && sl.Seq != nil && sl.Seq.Blob != nil {
+		sl.Seq.Blob.Line = true // Encode writes the document and a newline in one Write
+	}
 	w := enc.Fields["w"].(Iface)
 	if w.T == nil {
 		panic(goPanic{msg: "nil writer"})
@@ -242,6 +246,26 @@ func iJSONToken(in *Interp, fn *ssa.Function, a []Value) Value {
 		return Tuple{in.havoc(fn.Signature.Results().At(0).Type(), "jsontoken", 0), Iface{}}
 	}
 	return Tuple{Iface{}, in.makeErrorString(mkStr("json: invalid character after top-level value"))}
+}
+
+// More (after the first value was decoded): is there another element in the stream? It reports false at the end of the
+// input AND when the next byte that is not white space is a closing bracket or brace -- whatever follows that byte.
+func iJSONMore(in *Interp, fn *ssa.Function, a []Value) Value {
+	dec := (*a[0].(*Value)).(*Opaque)
+	doc, ok := dec.Fields["doc"].(Slice)
+	if !ok {
+		panic(abort("Decoder.More on a stream the model has not decoded from"))
+	}
+	if doc.Seq != nil && doc.Seq.Blob != nil {
+		return mkBool(false) // a document marshalled by the model is exactly one value
+	}
+	if in.branch(tEq(in.jsonClass(doc), mkInt(0))) {
+		return mkBool(false)
+	}
+	if in.branch(in.freshBool("json.trailing.bytes.start.with.a.closer")) {
+		return mkBool(false)
+	}
+	return mkBool(true)
 }
 
 func (in *Interp) jsonStream(data Slice, tgt Iface) Value {
